@@ -304,7 +304,12 @@ def transform_case(case, tr, rng_params):
     if kind == 'mono':
         c2['crits'] = []
     if 'seeds' in [c[0] for c in c2.get('crits', [])]:
-        c2['crits'] = [[c[0], sorted(sigma[p] for p in c[1])] if c[0] == 'seeds' else c for c in c2['crits']]
+        c2['crits'] = [[c[0], [sigma[p] for p in c[1]]] if c[0] == 'seeds' else c for c in c2['crits']]
+    if case.get('inf'):
+        if kind == 'mono':
+            c2.pop('inf')          # a strictly increasing map may send +inf to a finite top value
+        else:
+            c2['inf'] = [sigma[p_] for p_ in case['inf']]
     if not str(case.get('dtype', 'float64')).startswith('float'):
         # integer base image: the transformed image stays an integer image where it can (wide enough for the value maps)
         c2['dtype'] = 'int64' if c2['fb'] == 0 and all(x is not None and abs(x) < 2 ** 62 for x in c2['k']) else 'float64'
@@ -330,6 +335,8 @@ def gen_item_C16(rng, idx, tier):
         rng.shuffle(vals)
         case['k'] = [None if x is None else v for x, v in zip(case['k'], vals)]
         case['kind'] = 'perm'
+    if case['dtype'] == 'float64' and case['fb'] == 0 and rng.random() < 0.12:
+        pc.add_inf_pixels(rng, case)       # a saturated (+inf) pixel: above every threshold, like any other value
     nd = len(case['shape'])
     trs = []
     perm = list(range(nd))
@@ -355,6 +362,8 @@ def gen_item_C16(rng, idx, tier):
     thr = None
     if vals:
         thr = rng.choice(sorted(vals))
+        if thr >= impl.HUGE:
+            thr = None           # the sentinel stands for +inf: not a threshold
     if idx % 8 == 3:
         # decimal fractions in [1, 2) with a decimal min_delta (see gen: kind 'decimal'): only transformations that
         # are exact on such floats (relabellings, powers of two)
@@ -504,7 +513,7 @@ def gen_item_C20(rng, idx, tier):
     case = gen.gen_compute_case(rng, maxpix=30)
     case['dtype'] = 'float64'
     case['pstyle'] = 'py'      # equality looks at the recorded parameter values themselves
-    kind = rng.choice(['same', 'params', 'crits', 'data', 'nanmask', 'loaded', 'loaded', 'pruned', 'pruned2', 'shape', 'minv', 'nondendro'])
+    kind = rng.choice(['same', 'params', 'crits', 'data', 'nanmask', 'loaded', 'loaded', 'pruned', 'pruned2', 'shape', 'minv', 'nondendro', 'wcs'])
     if kind == 'loaded' and rng.random() < 0.4:
         # integer data beyond 2**53 with an integer threshold: parameters that a float cannot hold
         case['k'] = [2 ** 60 + 1 + ((x or 0) % 13) for x in case['k']]
@@ -554,6 +563,14 @@ def eval_C20(item):
     other = None
     if kind == 'same':
         pass
+    elif kind == 'wcs':
+        # the same data, parameters and structures, described by different world coordinate systems (or by one and by none):
+        # nothing the property lists differs
+        case = dict(case)
+        case['wcs'] = r.choice([0.0, 1.0])
+        c2['wcs'] = r.choice([None, 0.0, 2.5])
+        d1, a1 = impl.compute_impl(case)
+        o1 = impl.observe(d1, case)
     elif kind == 'params':
         c2['mind'] = case['mind'] + r.randint(1, 6)
         c2['minn'] = case['minn'] + r.randint(0, 3)
